@@ -432,15 +432,21 @@ def sys_case(rng, cid, steps=None, nprog=None, big=False, script=None, mode=None
     mode = mode or rng.choice(["reload", "reloadp"])
     names = fam.all_names()
 
-    def reload():
+    reference = rng.chance(1, 2)
+
+    def reload(first=False):
         nonlocal t
         t += 10
         L.append("now %d" % t)
         L.append("intern " + " ".join(hx(n) for n in rng.shuffle(names)))
+        if reference and not first:
+            # what the current sources compile to (a process of its own, binaries neither read nor written): the
+            # program a binary load yields in the reload that follows is compared with THIS, not with an older compile
+            L.append("reloadf " + " ".join(objs))
         L.append(mode + " " + " ".join(objs))
         t += 10
 
-    reload()           # the first compile
+    reload(True)       # the first compile
     if mode == "reload" and rng.chance(1, 2):
         # the bytes of the binaries just written, read by the model's own decoder
         for o in objs:
@@ -714,6 +720,7 @@ def histogram(cases, impl):
     h = {"unit_cases": 0, "sys_cases": 0, "reloads": 0, "binary_used": 0, "stale": 0, "needs_inherit": 0, "saves": 0,
          "permuted_reloads": 0, "damaged_binaries": 0, "switch_tables": 0, "programs_dumped": 0, "usort": 0, "upatch": 0, "call_results": 0}
     h["fresh_process_reloads"] = sum(1 for c in cases for l in c.lines if l.startswith("reloadp "))
+    h["reference_compiles"] = sum(1 for c in cases for l in c.lines if l.startswith("reloadf "))
     h["string_case_expectations"] = sum(1 for c in cases for l in c.lines if l.startswith("expect "))
     pos = {}
     for c in cases:
